@@ -35,10 +35,11 @@ BLK3 == <<47, 42, 42, 42, 47>>                   \* /***/   (a body that ends in
 BLKS == <<47, 42, 47, 32, 42, 47>>               \* /*/ */  (a body that starts with a slash)
 VT == <<11>>
 LINE == <<47, 47, 32, 121, 10>>                  \* // y NL
+LINECR == <<47, 47, 13, 43, 49, 10>>             \* // CR +1 NL  (only the line feed ends a line comment)
 \* the single space is the baseline rendering (Plain), so the small set spends its four slots on the other kinds
 Seps == CASE SepSet = "small" -> {<<>>, IDSP, BLK3, LINE}
-          [] SepSet = "medium" -> {<<>>, SP, TAB, NLs, VT, NBSP, BLK, BLKX, BLKS, LINE}
-          [] OTHER -> {<<>>, SP, TAB, NLs, VT, NBSP, EMSP, IDSP, BLK, BLKX, BLK3, BLKS, LINE, SP \o BLK, BLK \o SP}
+          [] SepSet = "medium" -> {<<>>, SP, TAB, NLs, VT, NBSP, BLK, BLKX, BLKS, LINE, LINECR}
+          [] OTHER -> {<<>>, SP, TAB, NLs, VT, NBSP, EMSP, IDSP, BLK, BLKX, BLK3, BLKS, LINE, LINECR, SP \o BLK, BLK \o SP}
 
 Init == toks = <<>> /\ gaps = <<>> /\ tail = <<>>
 Next == /\ Len(toks) < MaxLen
